@@ -550,6 +550,41 @@ pub fn check_named_sequences(dir: &Path, max_len: usize, case: &Value) -> (Vec<V
     (out, evals)
 }
 
+/// (e): output contract at finding counts around the powers of 256 (a status or a counter that
+/// is narrowed somewhere wraps exactly there): a function with N never-read locals yields N
+/// findings (plus the constant ones of the file), exit status 1 and a summary that says so.
+pub fn check_count(n: usize, dir: &Path, case: &Value) -> Vec<Violation> {
+    let mut src = String::from("pragma circom 2.0.0;\nfunction many(q) {\n");
+    for i in 0..n {
+        src.push_str(&format!("    var v{i} = q;\n"));
+    }
+    src.push_str("    return q;\n}\n");
+    runner::write_project(dir, &[("count.circom", &src)]);
+    let sarif = dir.join("count.sarif");
+    let run = run_bin(&BinOpts {
+        args: vec!["count.circom".into(), "--level".into(), "warning".into(), "--sarif-file".into(), sarif.display().to_string()],
+        cwd: dir,
+        hash_seed: Some(1),
+        timeout: Duration::from_secs(120),
+        sarif_file: Some(sarif),
+        mem_limit: None,
+    });
+    let shown = run.diagnostics.len();
+    let sarif_n = run.sarif.as_ref().map(|s| sarif_results(s).0.len());
+    let mut out = Vec::new();
+    let ok = shown == n && run.exit == Some(if n == 0 { 0 } else { 1 }) && run.summary_count() == Some(n) && sarif_n == Some(n);
+    if !ok {
+        out.push(Violation {
+            signature: "contract/count-boundary".into(),
+            what: format!("a file with exactly {n} findings: {shown} displayed, exit status {:?}, summary {:?}, {sarif_n:?} SARIF results", run.exit, run.summary),
+            case: case.clone(),
+            expected: format!("{n} displayed, exit status {}, summary count {n}, {n} SARIF results", if n == 0 { 0 } else { 1 }),
+            observed: crate::infra::truncate(&run.stderr, 300),
+        });
+    }
+    out
+}
+
 pub fn run(run: &Run) {
     run.set_rule(
         "(a) projects of n templates + 1 function, the instantiation relation ranging over every \
@@ -559,7 +594,7 @@ pub fn run(run: &Run) {
          level{info,warning,error} x every subset of the ids occurring in the unfiltered run x \
          verbose x sarif through the binary; (d) four files related by includes (chain, diamond, main on top) named in every \
          sequence of length <= 3 with repetition: displayed = disjoint union over the distinct named files of \
-         what each displays alone; non-trivial = shape with at least one instantiation \
+         what each displays alone; (e) files with exactly N findings for N around the multiples of 256 (thorough: up to 65537): N displayed, exit 1, summary N, N SARIF results; non-trivial = shape with at least one instantiation \
          edge / configuration that filters at least one finding",
     );
     let base = work_dir("c03");
@@ -679,6 +714,20 @@ pub fn run(run: &Run) {
         run.set_extra("named_file_sequences", json!(k));
         run.violations(vs);
     }
+    // (e)
+    {
+        let counts: Vec<usize> = match run.tier {
+            Tier::Quick => vec![0, 1, 255, 256, 257, 512],
+            Tier::Thorough => vec![0, 1, 255, 256, 257, 511, 512, 513, 1024, 4096, 65535, 65536, 65537],
+        };
+        run.idle();
+        par_each(&counts, |_, n| {
+            let case = json!({"kind": "count", "n": n});
+            run.eval(1);
+            run.nontrivial(1);
+            run.violations(check_count(*n, &base.join(format!("count{n}")), &case));
+        });
+    }
     let _ = std::fs::remove_dir_all(&base);
     run.assume("findings are compared as (id, level, message) multisets in (a) and as (id, level, message, file:line:col) in (b,c)");
 }
@@ -691,6 +740,7 @@ pub fn replay(case: &Value) -> Vec<Violation> {
             let edges = case["edges"].as_u64().unwrap_or(0) as u32;
             check_shape(n, edges, &base, case).0
         }
+        Some("count") => check_count(case["n"].as_u64().unwrap_or(256) as usize, &base, case),
         Some("named-sequences") => check_named_sequences(&base, case["max_len"].as_u64().unwrap_or(3) as usize, case).0,
         Some("contract") => {
             let name = case["corpus"].as_str().unwrap_or("mixed");
